@@ -6,7 +6,7 @@ use ntex_service::{Pipeline, Service, ServiceCtx, cfg::Cfg};
 use ntex_util::{HashMap, HashSet, future::Either, future::join};
 
 use crate::error::{
-    DecodeError, DispatcherError, PayloadError, ProtocolError, SpecViolation,
+    DispatcherError, PayloadError, ProtocolError, SpecViolation,
 };
 use crate::payload::{Payload, PayloadStatus};
 use crate::v5::codec::{Decoded, DisconnectReasonCode, Encoded, Packet};
@@ -213,7 +213,9 @@ where
                     }
                     Ok(None)
                 } else {
-                    Err(ProtocolError::Decode(DecodeError::UnexpectedPayload).into())
+                    // publish was refused or its handler is gone, rest of its payload is dropped
+                    log::trace!("Payload chunk for inactive publish is dropped");
+                    Ok(None)
                 }
             }
             Decoded::Packet(Packet::PublishAck(pkt), ..) => {
